@@ -70,7 +70,7 @@ func cellMap(run *bsRun) []hx.Sx {
 }
 
 func genC15(o *hx.Out, r *hx.Rng, tier string, replay string) error {
-	o.Rule = "perm (tag 9, c15perm.go): every input is run as given (A) and with the benchmark lines of every configuration block permuted (B: shuffled / reversed / last line first); recorded per run: the requested order of every field of the table, row and column key, the stream of projected measurements in input order, tables / rows / columns in output order, every cell; judged: arrangement = the one stream and orders determine (first observation, alpha, fixed list, num), each cell compared with the cell of its row in the first column, A and B the same cells with the same contents INCLUDING the comparison; tag C15_perm_changes_first_column iff a simulation of the documented ordering on both streams gives some cell another baseline column (known finding C15_perm_changes_baseline). Two input sources: the C14 generator (class bs) and own files with columns keyed by the sub-name key /v (class perm: 1-2 files, 1-2 blocks with the same configuration keys, 1-3 benchmarks x 2-4 values of /v, optional /n, 1-2 units; each file set under -col /v AND -col /v@alpha AND /v@(fixed list) / @num; also .file, .file,/v, rows by /v). Each run >= 8 times through the binary (GOMAXPROCS 1,2,3,16 x text,csv), in process twice, the first ones under -race. nan-inf (tag 8): 1-3 files, 2-4 benchmarks (shared by all files: +Inf / -Inf among the values; in one file only: NaN, +Inf, -Inf; spellings NaN nan Inf inf +Inf -Inf Infinity), 1-2 units, samples of 1..32 values, benchmarks interleaved; five variants per input with the lines of every benchmark reordered within the positions it occupies (as generated, special values first, last, in the middle, shuffled); every variant in process (cells with the values in order of arrival) and through the binary in text and csv at GOMAXPROCS 1 and 4, the first ones under -race: each cell's sample must be the NaN-first ascending arrangement of its measurements, cells and bytes identical for all variants. vary-warnings: tables of 2-4 columns x 24-40 rows where -row .name merges sub-benchmarks differing in /format, /n (and the note: file key under -table goos; columns by file or by -col /v), so that \"benchmarks vary in ...\" arises in the baseline cell AND other cells of the same row (same / different field lists), only in the baseline, only elsewhere, nowhere; each run repeatedly at GOMAXPROCS 1,2,4,16 in text and csv (stdout and the csv warning stream compared byte for byte), twice more in process and under the -race build; the first run's text footnotes and csv warnings are compared with the rendering model of the tables in which every cell carries the warning derived from the residue keys of its OWN measurements. benchstat inputs from the C14 generator; each is run through the real binary several times across GOMAXPROCS in {1,2,3,16} in text and csv (bytes compared), a subset under a -race build, twice in process (fresh map seeds),. non-trivial = at least two cells; distinct by input"
+	o.Rule = "perm (tag 9, c15perm.go): every input is run as given (A) and with the benchmark lines of every configuration block permuted (B: shuffled / reversed / last line first); recorded per run: the requested order of every field of the table, row and column key, the stream of projected measurements in input order, tables / rows / columns in output order, every cell; judged: arrangement = the one stream and orders determine (first observation, alpha, fixed list, num), each cell compared with the cell of its row in the first column, A and B the same cells with the same contents INCLUDING the comparison; tag C15_perm_changes_first_column iff a simulation of the documented ordering on both streams gives some cell another baseline column (known finding C15_perm_changes_baseline). Two input sources: the C14 generator (class bs) and own files with columns keyed by the sub-name key /v (class perm: 1-2 files, 1-2 blocks with the same configuration keys, 1-3 benchmarks x 2-4 values of /v, optional /n, 1-2 units; each file set under -col /v AND -col /v@alpha AND /v@(fixed list) / @num; also .file, .file,/v, rows by /v). Each run >= 8 times through the binary (GOMAXPROCS 1,2,3,16 x text,csv), in process twice, the first ones under -race. nan-inf (tag 8): 1-3 files, 2-4 benchmarks (shared by all files: +Inf / -Inf among the values; in one file only: NaN, +Inf, -Inf; spellings NaN nan Inf inf +Inf -Inf Infinity), 1-2 units, samples of 1..32 values, benchmarks interleaved; five variants per input with the lines of every benchmark reordered within the positions it occupies (as generated, special values first, last, in the middle, shuffled); every variant in process (cells with the values in order of arrival) and through the binary in text and csv at GOMAXPROCS 1 and 4, the first ones under -race: each cell's sample must be the NaN-first ascending arrangement of its measurements, cells and bytes identical for all variants. vary-warnings: tables of 2-4 columns x 24-40 rows where -row .name merges sub-benchmarks differing in /format, /n (and the note: file key under -table goos; columns by file or by -col /v), so that \"benchmarks vary in ...\" arises in the baseline cell AND other cells of the same row (same / different field lists), only in the baseline, only elsewhere, nowhere; each run repeatedly at GOMAXPROCS 1,2,4,16 in text and csv (stdout and the csv warning stream compared byte for byte), twice more in process and under the -race build; the first run's text footnotes and csv warnings are compared with the rendering model of the tables in which every cell carries the warning derived from the residue keys of its OWN measurements. big-table (tag 10, c15big.go): tables of 1024-1183 rows x 2-3 columns (files, or -col /v in one file), 2-3 samples per cell, values over nine orders of magnitude with all digits, sometimes 1% of the cells missing; real binary at GOMAXPROCS 1,2,4,16 in csv (repeated: the geomean row at full precision) and text, -race build in csv at 4 and 16; stdout and stderr of EVERY run are in the case and compared by the evaluator (same bytes per format, same csv warning stream, no DATA RACE), the csv records compared with the rendering model of the tables built in process. big-sample (tag 8): 2-3 files x 1-2 benchmarks x 1-2 units, every cell 256..600 values arriving shuffled / descending / saw-tooth (with and without ties), distributions nearly coinciding; variants: as given, the same again, lines reversed, shuffled; each in process under another GOMAXPROCS (p-values bit for bit) and through the binary in text and csv at GOMAXPROCS 1,2,4,16, the first two through the -race build at 4 and 16. benchstat inputs from the C14 generator; each is run through the real binary several times across GOMAXPROCS in {1,2,3,16} in text and csv (bytes compared), a subset under a -race build, twice in process (fresh map seeds),. non-trivial = at least two cells; distinct by input"
 	exe, err := buildBenchstat(false)
 	if err != nil {
 		return err
@@ -146,6 +146,10 @@ func genC15(o *hx.Out, r *hx.Rng, tier string, replay string) error {
 	}
 	// NaN / +Inf / -Inf measurements in samples of at most 32 values, lines permuted (c15nan.go)
 	if err := c15GenNaNCases(o, r.Split(), tier, exe, raceExe); err != nil {
+		return err
+	}
+	// tables of >= 1024 rows across GOMAXPROCS in csv; cells of 256..600 unsorted values (c15big.go)
+	if err := c15GenBigCases(o, r.Split(), tier, exe, raceExe); err != nil {
 		return err
 	}
 	// all invocations once more inside one process: forwards, then backwards, so that every
